@@ -586,7 +586,7 @@ func c02ServerReaction(r *Run, m *ServerModel) {
 			errName = res.str(as.Lhs[2])
 		}
 	}
-	counts, _ := countCalls(r.L, info, hr, "p9.send", db.Wrappers)
+	counts, _ := countCalls(db, info, hr, "p9.send")
 	n := 0
 	for _, ex := range db.Exits[hr] {
 		if ex.Fn != ast.Node(hr.Decl) || ex.Ret == nil || ex.St.Dead || !ex.St.Must["p9.recv"] {
